@@ -7,6 +7,7 @@ from typing import TYPE_CHECKING, ClassVar
 from mypy_extensions import mypyc_attr
 
 from pyjelly import jelly
+from pyjelly.errors import JellyAssertionError
 from pyjelly.options import LookupPreset, StreamParameters, StreamTypes
 from pyjelly.serialize.encode import (
     Slot,
@@ -61,6 +62,7 @@ class Stream:
         self.flow = flow
         self.repeated_terms = [None] * len(Slot)
         self.enrolled = False
+        self.failed = False
         self.stream_types = StreamTypes(
             physical_type=self.physical_type,
             logical_type=self.flow.logical_type,
@@ -92,6 +94,18 @@ class Stream:
             flow = ManualFrameFlow(logical_type=self.options.logical_type)
         return flow
 
+    def ensure_usable(self) -> None:
+        """
+        Refuse further use after a statement was rejected half-way.
+
+        A rejected statement may already have updated the lookup tables and the
+        repeated terms without its rows being written, so anything encoded
+        afterwards could refer to entries the reader never received.
+        """
+        if self.failed:
+            msg = "stream cannot be used after a statement was rejected"
+            raise JellyAssertionError(msg)
+
     def enroll(self) -> None:
         """Initialize start of the stream."""
         if not self.enrolled:
@@ -117,11 +131,16 @@ class Stream:
             iri (str): namespace iri
 
         """
-        rows = encode_namespace_declaration(
-            name=name,
-            value=iri,
-            term_encoder=self.encoder,
-        )
+        self.ensure_usable()
+        try:
+            rows = encode_namespace_declaration(
+                name=name,
+                value=iri,
+                term_encoder=self.encoder,
+            )
+        except BaseException:
+            self.failed = True
+            raise
         self.flow.extend(rows)
 
     @classmethod
@@ -203,11 +222,16 @@ class TripleStream(Stream):
                 flow supports frames slicing and current flow is full
 
         """
-        new_rows = encode_triple(
-            terms,
-            term_encoder=self.encoder,
-            repeated_terms=self.repeated_terms,
-        )
+        self.ensure_usable()
+        try:
+            new_rows = encode_triple(
+                terms,
+                term_encoder=self.encoder,
+                repeated_terms=self.repeated_terms,
+            )
+        except BaseException:
+            self.failed = True
+            raise
         self.flow.extend(new_rows)
         return self.flow.frame_from_bounds()
 
@@ -228,11 +252,16 @@ class QuadStream(Stream):
                 flow supports frames slicing and current flow is full
 
         """
-        new_rows = encode_quad(
-            terms,
-            term_encoder=self.encoder,
-            repeated_terms=self.repeated_terms,
-        )
+        self.ensure_usable()
+        try:
+            new_rows = encode_quad(
+                terms,
+                term_encoder=self.encoder,
+                repeated_terms=self.repeated_terms,
+            )
+        except BaseException:
+            self.failed = True
+            raise
         self.flow.extend(new_rows)
         return self.flow.frame_from_bounds()
 
@@ -258,8 +287,13 @@ class GraphStream(TripleStream):
 
         """
         graph_start = jelly.RdfGraphStart()
+        self.ensure_usable()
         self.encoder.start_statement()
-        [*graph_rows] = self.encoder.encode_graph(graph_id, graph_start)
+        try:
+            [*graph_rows] = self.encoder.encode_graph(graph_id, graph_start)
+        except BaseException:
+            self.failed = True
+            raise
         start_row = jelly.RdfStreamRow(graph_start=graph_start)
         graph_rows.append(start_row)
         self.flow.extend(graph_rows)
